@@ -861,9 +861,24 @@ func errorSwallowed(p *Prog, f *ssa.Function, call *ssa.Call) (bool, string) {
 			errSucc = b.Succs[1]
 		}
 		seen, _ := reach(f, errSucc, nil, nil)
+		ei := errResultIndex(f)
 		for _, rt := range returns(f) {
-			if seen[rt.Block()] && exitKind(rt) == ExitSuccess {
+			if !seen[rt.Block()] {
+				continue
+			}
+			if ei < 0 {
+				continue // f cannot report failure at all; handled by the caller's own analysis
+			}
+			k := exitKind(rt)
+			if k == ExitSuccess {
 				return true, p.instrPos(ifi)
+			}
+			if k == ExitUnknown && ei < len(rt.Results) && !derivedFromAny(rt.Results[ei], users, 0) {
+				// the value returned on this path is unrelated to the failed step's error
+				// (e.g. another, still-nil error variable merged by a phi)
+				if ph, ok := rt.Results[ei].(*ssa.Phi); ok && phiHasNilEdge(ph) {
+					return true, p.instrPos(ifi)
+				}
 			}
 		}
 	}
@@ -913,4 +928,44 @@ func neverFails(fn *ssa.Function) bool {
 		}
 	}
 	return true
+}
+
+// derivedFromAny: v is one of the values, a phi including one, or a call taking one (wrap).
+func derivedFromAny(v ssa.Value, vals []ssa.Value, d int) bool {
+	if d > 5 {
+		return false
+	}
+	for _, x := range vals {
+		if v == x || sameValue(v, x) {
+			return true
+		}
+	}
+	switch y := v.(type) {
+	case *ssa.Phi:
+		for _, e := range y.Edges {
+			if derivedFromAny(e, vals, d+1) {
+				return true
+			}
+		}
+	case *ssa.Call:
+		for _, a := range y.Call.Args {
+			if derivedFromAny(a, vals, d+1) {
+				return true
+			}
+		}
+	case *ssa.MakeInterface:
+		return derivedFromAny(y.X, vals, d+1)
+	case *ssa.ChangeInterface:
+		return derivedFromAny(y.X, vals, d+1)
+	}
+	return false
+}
+
+func phiHasNilEdge(ph *ssa.Phi) bool {
+	for _, e := range ph.Edges {
+		if c, ok := e.(*ssa.Const); ok && c.IsNil() {
+			return true
+		}
+	}
+	return false
 }
